@@ -1303,6 +1303,11 @@ class Run:
                 for point, name, sn in ob['launch']:
                     self.jobs[(point, name, sn)] = {
                         'plan': self.plan_job(rng, pol, point, name, sn), 'next': 0}
+                    if ob.get('crashed') and self.jobs[(point, name, sn)]['plan'][:1] and \
+                            self.jobs[(point, name, sn)]['plan'][0][0] == 'subres':
+                        # additive (C20): launched by a main loop in which the scheduler died: the job lives on, its
+                        # job-submit callback died with the scheduler (see crash_restart)
+                        self.jobs[(point, name, sn)]['next'] = 1
                 ops_out.append(op)
                 obs.append(ob)
                 if pol.get('p_poll'):
